@@ -252,6 +252,7 @@ func cmdCheck(args []string) int {
 	keep := fs.Bool("keep", false, "keep all SMT files")
 	verbose := fs.Bool("v", false, "verbose")
 	noEvidence := fs.Bool("no-evidence", false, "do not write the evidence file")
+	writeBaseline := fs.Bool("write-baseline", false, "maintenance: record the generated obligation names of this property in baseline_obligations.json")
 	fs.Parse(args)
 	if t := os.Getenv("VERIF_TIER"); t != "" && (t == "quick" || t == "thorough") {
 		*tier = t
@@ -272,7 +273,11 @@ func cmdCheck(args []string) int {
 		return 2
 	}
 	e := newEngine()
-	if err := e.load(*repo, *verif, targetPkgs); err != nil {
+	var unitPkgs []string
+	for _, u := range ps.Units {
+		unitPkgs = append(unitPkgs, u.Pkg)
+	}
+	if err := e.load(*repo, *verif, pkgsFor(unitPkgs...)); err != nil {
 		// a tree that does not load cannot be judged: report as an engine fault, not a violation
 		fmt.Fprintln(os.Stderr, "load error:", err)
 		return 2
@@ -373,7 +378,7 @@ func cmdCheck(args []string) int {
 		return append(append([]axiomTerm{}, e.axiomTerms...), allLemmaAx...)
 	}
 	opt := solveOpts{timeout: 10, seed: seed, outDir: filepath.Join(*verif, "out", ps.ID+"-"+*tier),
-		cacheDir: filepath.Join(*verif, ".cache"), useCache: true, workers: 6, replay: ps.Replay}
+		cacheDir: filepath.Join(*verif, ".cache"), useCache: true, workers: 6, replay: ps.Replay, property: ps.ID}
 	if *tier == "thorough" {
 		opt.timeout = 60
 		opt.useCache = false
@@ -469,6 +474,20 @@ func cmdCheck(args []string) int {
 		path := report(m+"-missing", map[string]interface{}{"property": ps.ID, "obligation": m, "kind": "missing",
 			"note": "this obligation was generated and discharged on the pinned tree but is not generated any more; the clause it checked is no longer being proved"})
 		violations = append(violations, fmt.Sprintf("VIOLATION property=%s replay=%s no-failing-input-found", ps.ID, path))
+	}
+	if *writeBaseline && len(res.failed) == 0 && len(res.translateErr) == 0 {
+		base := map[string][]string{}
+		if data, err := os.ReadFile(filepath.Join(*verif, "baseline_obligations.json")); err == nil {
+			json.Unmarshal(data, &base)
+		}
+		var names []string
+		for _, o := range selected {
+			names = append(names, o.Name)
+		}
+		sort.Strings(names)
+		base[ps.ID] = names
+		data, _ := json.MarshalIndent(base, "", " ")
+		os.WriteFile(filepath.Join(*verif, "baseline_obligations.json"), data, 0o644)
 	}
 	wall := time.Since(start).Seconds()
 	if !*noEvidence {
@@ -625,7 +644,7 @@ func cmdDump(args []string) int {
 	timeout := fs.Int("timeout", 10, "solver timeout")
 	fs.Parse(args)
 	e := newEngine()
-	if err := e.load(*repo, *verif, targetPkgs); err != nil {
+	if err := e.load(*repo, *verif, pkgsFor(*pkgN)); err != nil {
 		fmt.Fprintln(os.Stderr, "load error:", err)
 		return 2
 	}
@@ -648,6 +667,12 @@ func cmdDump(args []string) int {
 		if *fn == "lemmas" {
 			e.obls = append(e.obls, obls...)
 		}
+	}
+	if strings.HasPrefix(*fn, "shape:") {
+		env := &SpecEnv{e: e, st: &State{}, pkg: e.pkgByShort(*pkgN)}
+		sh := e.shapeOf(env.resolveGoType(strings.TrimPrefix(*fn, "shape:")))
+		e.dumpShape(sh, 0, map[*Shape]bool{})
+		return 0
 	}
 	if *fn != "lemmas" {
 		pkg := e.pkgByShort(*pkgN)
